@@ -115,7 +115,7 @@ def run(ctx: Ctx) -> None:
             ctx.case(("Visibility", "alias", alias), nontrivial=True)
 
         # ------------------------------------------------------------ non-member strings
-        n = 300 if ctx.quick else 2000
+        n = 300 if ctx.quick else 40000
         for name, enum, meth, up, low in PARSERS:
             parse = getattr(enum, meth)
             pool = [m.value for m in enum] + [m.name for m in enum]
